@@ -58,6 +58,13 @@ pub struct NetSpec {
     /// probability (ppm) that, in addition to the genuine datagram, a copy with a few flipped
     /// header bytes is delivered (an on-path forger that cannot produce a valid tag)
     pub forge_ppm: u32,
+    /// 0 = flip 1-3 bits among the first 48 bytes (class `forged_copies`); 1 = targeted
+    /// forgeries (class `forged_targeted`): one flipped bit in the tag, in the encrypted
+    /// payload / control data, or value bits of the stream-offset field raised so that the copy
+    /// still parses as the same stream packet far beyond the receive window
+    pub forge_mode: u8,
+    /// probability (ppm) that a forged copy is delivered *before* the genuine datagram
+    pub forge_first_ppm: u32,
     pub latency_us: u64,
     pub jitter_us: u64,
     pub net_seed: u64,
@@ -169,7 +176,7 @@ fn half_from(v: &Value) -> HalfPlan {
 
 pub fn scenario_json(s: &Scenario) -> Value {
     json!({"transport": s.transport, "class": s.class, "key": s.key,
-        "net": {"loss_ppm": s.net.loss_ppm, "burst": s.net.burst.map(|(a,b)| vec![a,b]), "drop_kth": s.net.drop_kth, "dup_ppm": s.net.dup_ppm, "forge_ppm": s.net.forge_ppm,
+        "net": {"loss_ppm": s.net.loss_ppm, "burst": s.net.burst.map(|(a,b)| vec![a,b]), "drop_kth": s.net.drop_kth, "dup_ppm": s.net.dup_ppm, "forge_ppm": s.net.forge_ppm, "forge_mode": s.net.forge_mode, "forge_first_ppm": s.net.forge_first_ppm,
                 "latency_us": s.net.latency_us, "jitter_us": s.net.jitter_us, "net_seed": s.net.net_seed, "vanish_on_fin": s.net.vanish_on_fin},
         "client_mtu": s.client_mtu, "server_mtu": s.server_mtu,
         "vanish": s.vanish.name(), "vanish_at_us": s.vanish_at_us,
@@ -188,6 +195,8 @@ pub fn scenario_from(v: &Value) -> Scenario {
             drop_kth: n["drop_kth"].as_array().map(|a| a.iter().filter_map(|x| x.as_u64()).collect()).unwrap_or_default(),
             dup_ppm: n["dup_ppm"].as_u64().unwrap_or(0) as u32,
             forge_ppm: n["forge_ppm"].as_u64().unwrap_or(0) as u32,
+            forge_mode: n["forge_mode"].as_u64().unwrap_or(0) as u8,
+            forge_first_ppm: n["forge_first_ppm"].as_u64().unwrap_or(0) as u32,
             latency_us: n["latency_us"].as_u64().unwrap_or(500),
             jitter_us: n["jitter_us"].as_u64().unwrap_or(0),
             net_seed: n["net_seed"].as_u64().unwrap_or(1),
@@ -293,6 +302,7 @@ const SIM_CLASSES: &[&str] = &[
     "dup_reorder",
     "loss_dup_reorder",
     "forged_copies",
+    "forged_targeted",
     "early_drop",
     "vanish_blackhole",
     "vanish_server_mute",
@@ -305,7 +315,7 @@ pub fn gen_sim_scenario(seed: u64, case: u64, only: Option<&str>, heavy_reorder:
         Some(c) => c.to_string(),
         None => {
             // weights: the fault classes dominate
-            let w = [1u64, 5, 2, 4, 2, 3, 3, 2, 2, 1, 1];
+            let w = [1u64, 5, 2, 4, 2, 3, 3, 4, 2, 2, 1, 1];
             let total: u64 = w.iter().sum();
             let mut x = rng.below(total);
             let mut idx = 0;
@@ -353,6 +363,13 @@ pub fn gen_sim_scenario(seed: u64, case: u64, only: Option<&str>, heavy_reorder:
             // nothing is lost: every genuine datagram arrives, some accompanied by a forgery
             net.forge_ppm = *rng.pick(&[20_000u32, 100_000, 400_000, 1_000_000]);
             net.jitter_us = *rng.pick(&[0u64, 100, 300]);
+        }
+        "forged_targeted" => {
+            // nothing is lost either; the forgeries are aimed: see NetSpec::forge_mode
+            net.forge_mode = 1;
+            net.forge_ppm = *rng.pick(&[100_000u32, 400_000, 1_000_000, 1_000_000]);
+            net.forge_first_ppm = *rng.pick(&[0u32, 500_000, 1_000_000, 1_000_000]);
+            net.jitter_us = *rng.pick(&[0u64, 0, 100, 300]);
         }
         "dup_reorder" => {
             net.dup_ppm = *rng.pick(&[10_000u32, 100_000, 300_000, 1_000_000]);
@@ -533,8 +550,103 @@ pub struct NetStats {
     pub vanished_behind_fin: u64,
     pub duplicated: u64,
     pub forged: u64,
+    pub forged_kinds: BTreeMap<&'static str, u64>,
     pub reordered: u64,
     pub bytes: u64,
+}
+
+impl NetStats {
+    fn count_forgery(&mut self, kind: &'static str) {
+        *self.forged_kinds.entry(kind).or_insert(0) += 1;
+    }
+}
+
+/// What an on-path forger without the key can do best: keep the datagram parseable and change
+/// exactly one thing. Returns the kind of forgery made. None of the results can carry a valid
+/// tag (AEAD covers header, payload and control data).
+fn forge_targeted(bytes: &mut Vec<u8>, r: &mut Rng) -> &'static str {
+    use s2n_quic_dc::packet;
+    let n = bytes.len();
+    if n < 17 {
+        if n > 0 {
+            bytes[n - 1] ^= 1;
+        }
+        return "tiny";
+    }
+    struct Hdr {
+        stream: bool,
+        key_id: u64,
+        pn: u64,
+        offset: u64,
+        fin: Option<u64>,
+        payload: usize,
+        ctl: usize,
+        retx: bool,
+    }
+    fn parse(b: &[u8]) -> Option<Hdr> {
+        let mut copy = b.to_vec();
+        let d = s2n_codec::DecoderBufferMut::new(&mut copy);
+        match d.decode_parameterized::<packet::Packet>(16) {
+            Ok((packet::Packet::Stream(s), _)) => Some(Hdr {
+                stream: true,
+                key_id: s.credentials().key_id.as_u64(),
+                pn: s.packet_number().as_u64(),
+                offset: s.stream_offset().as_u64(),
+                fin: s.final_offset().map(|v| v.as_u64()),
+                payload: s.payload().len(),
+                ctl: s.control_data().len(),
+                retx: s.is_retransmission(),
+            }),
+            Ok((packet::Packet::Control(c), _)) => Some(Hdr { stream: false, key_id: c.credentials().key_id.as_u64(), pn: c.packet_number().as_u64(), offset: 0, fin: None, payload: 0, ctl: c.control_data().len(), retx: false }),
+            _ => None,
+        }
+    }
+    let orig = parse(bytes);
+    let choice = r.below(4);
+    if let Some(h) = &orig {
+        if h.stream && choice == 0 {
+            // raise value bits of the offset field: same packet, same stream, same packet
+            // number, same lengths - only the place in the stream changes
+            let mut best: Option<(usize, u8, u64)> = None;
+            for i in 1..n.min(64) {
+                let old = bytes[i];
+                let mut cands = [0u8; 9];
+                for b in 0..8 {
+                    cands[b] = old ^ (1 << b);
+                }
+                cands[8] = old | 0x3f;
+                for &c in cands.iter() {
+                    if c == old {
+                        continue;
+                    }
+                    bytes[i] = c;
+                    if let Some(m) = parse(bytes) {
+                        if m.stream && m.key_id == h.key_id && m.pn == h.pn && m.fin == h.fin && m.payload == h.payload && m.ctl == h.ctl && m.retx == h.retx && m.offset > h.offset + 100_000 && best.map_or(true, |(_, _, o)| m.offset > o) {
+                            best = Some((i, c, m.offset));
+                        }
+                    }
+                }
+                bytes[i] = old;
+            }
+            if let Some((i, c, _)) = best {
+                bytes[i] = c;
+                return "stream_offset_jump";
+            }
+        }
+        let body = h.payload + h.ctl;
+        if choice == 1 && body > 0 && n >= 16 + body {
+            // one bit of the encrypted payload / the control data in front of the tag
+            let i = n - 16 - 1 - r.below(body as u64) as usize;
+            bytes[i] ^= 1 << r.below(8);
+            return if h.stream { "stream_body_bit" } else { "control_body_bit" };
+        }
+        let i = n - 1 - r.below(16) as usize;
+        bytes[i] ^= 1 << r.below(8);
+        return if h.stream { "stream_tag_bit" } else { "control_tag_bit" };
+    }
+    let i = n - 1 - r.below(16) as usize;
+    bytes[i] ^= 1 << r.below(8);
+    "other_tag_bit"
 }
 
 pub struct NetCtl {
@@ -637,7 +749,11 @@ impl NetCtl {
         let mut v = Vec::with_capacity(copies);
         for c in 0..copies {
             let j = if self.spec.jitter_us > 0 { self.rng.below(self.spec.jitter_us + 1) } else { 0 };
-            let d = self.spec.latency_us + j;
+            let mut d = self.spec.latency_us + j;
+            if c + 1 == copies && forged.is_some() && self.spec.forge_first_ppm > 0 && self.rng.below(1_000_000) < self.spec.forge_first_ppm as u64 {
+                // the forger is closer to the receiver than the sender is
+                d = self.spec.latency_us / 2;
+            }
             let at = now_us + d;
             let last = self.last_delivery_us.entry(p.destination()).or_insert(0);
             if at < *last {
@@ -734,7 +850,10 @@ impl Allocator for FaultyQueues {
                         continue;
                     }
                     let now_us = bach::time::Instant::now().elapsed_since_start().as_micros() as u64;
-                    let delays = ctl.lock().unwrap().plan(&packet, now_us);
+                    let (delays, forge_mode) = {
+                        let mut g = ctl.lock().unwrap();
+                        (g.plan(&packet, now_us), g.spec.forge_mode)
+                    };
                     for (d, forge) in delays {
                         let dispatch = dispatch.clone();
                         let mut packet = packet.clone();
@@ -745,7 +864,10 @@ impl Allocator for FaultyQueues {
                             let mut r = Rng::new(seed);
                             let mut bytes = packet.transport.payload().to_vec();
                             let span = bytes.len().min(48);
-                            if span > 0 {
+                            if forge_mode == 1 {
+                                let kind = forge_targeted(&mut bytes, &mut r);
+                                ctl.lock().unwrap().stats.count_forgery(kind);
+                            } else if span > 0 {
                                 for _ in 0..r.range(1, 4) {
                                     let i = r.below(span as u64) as usize;
                                     bytes[i] ^= 1 << r.below(8);
@@ -1144,10 +1266,10 @@ fn judge(sc: &Scenario, o: &Oracle, hanging: Vec<String>, vanish_t0_us: Option<u
     // whose flipped bits name another queue / stream is handed to the acceptor and only fails
     // authentication when it is read): those die before their preamble and are not streams
     // of the scenario.
-    if sc.net.forge_ppm > 0 && o.server_preamble_failures > 0 {
+    if sc.net.forge_ppm > 0 && sc.net.forge_mode == 0 && o.server_preamble_failures > 0 {
         features.push("phantom_streams=true".into());
     }
-    if sc.net.forge_ppm == 0 && !vanished && !timed_out && o.server_preamble_failures > 0 && !sc.streams.iter().any(|s| s.client.read_stop_at.is_some() || s.client.write_stop_at.is_some()) {
+    if (sc.net.forge_ppm == 0 || sc.net.forge_mode == 1) && !vanished && !timed_out && o.server_preamble_failures > 0 && !sc.streams.iter().any(|s| s.client.read_stop_at.is_some() || s.client.write_stop_at.is_some()) {
         findings.push(Finding {
             sig: format!("c20:{t}:unexpected_error:{}", if net.dropped_random + net.dropped_burst + net.dropped_kth > 0 { "lossy_network" } else { "lossless_network" }),
             what: format!("{} accepted stream(s) failed on the server before the first 8 bytes could be read although both endpoints are alive: {:?}", o.server_preamble_failures, o.errors.iter().filter(|e| e.0.starts_with("server:preamble")).collect::<Vec<_>>()),
@@ -1172,7 +1294,11 @@ fn judge(sc: &Scenario, o: &Oracle, hanging: Vec<String>, vanish_t0_us: Option<u
     });
     features.push(format!("loss={}", loss_bucket(&sc.net)));
     features.push(format!("dup={}", sc.net.dup_ppm > 0));
-    features.push(format!("forged={}", sc.net.forge_ppm > 0));
+    features.push(format!("forged={}", if sc.net.forge_ppm == 0 { "no" } else if sc.net.forge_mode == 1 { "targeted" } else { "header_bits" }));
+    if sc.net.forge_mode == 1 {
+        features.push(format!("forged_first={}", sc.net.forge_first_ppm > 0));
+        features.push(format!("offset_jump={}", net.forged_kinds.get("stream_offset_jump").copied().unwrap_or(0) > 0));
+    }
     features.push(format!("jitter={}", match sc.net.jitter_us { 0 => "0", 1..=500 => "small", _ => "large" }));
     features.push(format!("streams={}", sc.streams.len().min(4)));
     let max_size = sc.streams.iter().map(|s| s.client.write_len.max(s.server.write_len)).max().unwrap_or(0);
@@ -1689,6 +1815,10 @@ fn account(sum: &mut Summary, sc: &Scenario, out: &Outcome, seed: u64, case: u64
     sum.count("packets_dropped_vanish", out.net.dropped_vanish);
     sum.count("vanished_behind_a_final_offset_with_a_gap", out.net.vanished_behind_fin);
     sum.count("packets_duplicated", out.net.duplicated);
+    sum.count("packets_forged", out.net.forged);
+    for (k, v) in &out.net.forged_kinds {
+        sum.count(&format!("forged_targeted.{k}"), *v);
+    }
     sum.count("packets_reordered", out.net.reordered);
     sum.count(&format!("{t}_error_resolutions"), out.errors.len() as u64);
     sum.max(&format!("{t}_max_virtual_ms"), out.virtual_ms as i64);
@@ -1736,12 +1866,15 @@ fn account(sum: &mut Summary, sc: &Scenario, out: &Outcome, seed: u64, case: u64
         }
         // forged copies (loss-free by construction) have signatures of their own: what goes wrong
         // there goes wrong because an unauthenticated datagram was acted upon
+        // (targeted forgeries - NetSpec::forge_mode 1 - keep a name of their own: the known
+        // findings of the random-header class do not cover them)
+        let fm = if sc.net.forge_mode == 1 { "targeted_forgery" } else { "forgery" };
         let signature = if sc.net.forge_ppm > 0 && f.sig.contains(":unexpected_error:") {
-            format!("c20:{t}:stream_failed_under_forgery")
+            format!("c20:{t}:stream_failed_under_{fm}")
         } else if sc.net.forge_ppm > 0 && f.sig.contains("traffic_storm") {
-            format!("c20:{t}:traffic_storm_under_forgery")
+            format!("c20:{t}:traffic_storm_under_{fm}")
         } else if sc.net.forge_ppm > 0 && f.sig.contains(":hang:peer_alive") {
-            format!("c20:{t}:hang_under_forgery")
+            format!("c20:{t}:hang_under_{fm}")
         } else {
             f.sig.clone()
         };
@@ -1788,7 +1921,7 @@ fn account_failure(sum: &mut Summary, sc: &Scenario, msg: String, seed: u64, cas
             known::push_violation(sum, Violation {
                 property: "C20".into(),
                 signature: if sc.net.forge_ppm > 0 {
-                    format!("c20:{}:traffic_storm_under_forgery", sc.transport)
+                    format!("c20:{}:traffic_storm_under_{}", sc.transport, if sc.net.forge_mode == 1 { "targeted_forgery" } else { "forgery" })
                 } else {
                     format!("c20:{}:traffic_storm_no_progress", sc.transport)
                 },
